@@ -369,6 +369,9 @@ func resolvePathToFieldDescriptors(
 		part := remaining
 		if i := strings.IndexByte(remaining, '.'); i >= 0 {
 			part, remaining = remaining[:i], remaining[i+1:]
+			if remaining == "" {
+				return nil, fmt.Errorf("in field path %q: path must not end with a dot", path)
+			}
 		} else {
 			remaining = ""
 		}
